@@ -169,6 +169,11 @@ class PortOracle(UnrollMixin, Hooks):
             f = field_of(cond.v)
             if f is not None and f[1] == 1 and not f[2] and f[3] == OFFSET:
                 return 'T' in self.classes[f[0]]
+        if isinstance(cond, Cmp) and cond.op in ('==', '!=') and isinstance(cond.b, Str) and \
+                cond.b.is_lit() and cond.b.text() == '':
+            f = field_of(cond.a)
+            if f is not None and f[1] == 1 and not f[2] and f[3] == OFFSET:
+                return ('T' not in self.classes[f[0]]) == (cond.op == '==')
         if isinstance(cond, Cmp) and isinstance(cond.a, Sym) and isinstance(cond.b, Sym):
             # comparisons on the length of the looked-up name
             lens = [a for a in (cond.a - cond.b).all_atoms()
@@ -444,17 +449,48 @@ class NamedOracle(UnrollMixin, Hooks):
             f = field_of(cond.v)
             if f and f[1] == 1:
                 return c == 'named'
+            t = find_tag(cond.v)
+            if t is not None and t[0] in ('SER=', 'SNR='):
+                # the text after the tag: a tag of the case's kind carries 8 (or 2) characters
+                if c.startswith(t[0][:3].lower()):
+                    return True
+            if isinstance(cond.v, Opaque) and cond.v.label == 'item' and len(cond.v.args) == 2 and \
+                    isinstance(cond.v.args[0], Opaque) and cond.v.args[0].label == 'm:partition' and \
+                    len(cond.v.args[0].args) == 2 and isinstance(cond.v.args[0].args[1], Str) and \
+                    cond.v.args[0].args[1].is_lit() and cond.v.args[1] == Sym.const(1):
+                # hwid.partition(TAG)[1] is TAG when it occurs, '' otherwise
+                return self._decide(In(cond.v.args[0].args[1], cond.v.args[0].args[0]), st)
+        if isinstance(cond, Cmp) and isinstance(cond.a, Opaque) and cond.a.label == 'm:find' and \
+                len(cond.a.args) == 2 and isinstance(cond.a.args[1], Str) and \
+                cond.a.args[1].is_lit() and isinstance(cond.b, Sym) and cond.b.is_const():
+            # hwid.find(TAG) compared with 0 / -1: "TAG occurs" / "does not occur"
+            present = self._decide(In(cond.a.args[1], cond.a.args[0]), st)
+            k_ = cond.b.const_value()
+            if present is not None:
+                table = {('<', 0): not present, ('>=', 0): present, ('==', -1): not present,
+                         ('!=', -1): present, ('>', -1): present, ('<=', -1): not present}
+                if (cond.op, k_) in table:
+                    return table[(cond.op, k_)]
+        if isinstance(cond, Cmp) and cond.op in ('==', '!=') and isinstance(cond.b, Str) and \
+                cond.b.is_lit() and cond.b.text() == '':
+            # description[11:] == ''  <=>  no name after the product string
+            f = field_of(cond.a)
+            if f and f[1] == 1:
+                return (c != 'named') == (cond.op == '==')
         if isinstance(cond, In) and isinstance(cond.item, Str) and cond.item.is_lit():
             f = field_of(cond.container)
             if f and f[1] == 2:
                 lit = cond.item.text()
                 if lit in ('SER=', ' LOCAT'):
-                    return c == 'ser'
+                    return c.startswith('ser')
                 if lit == 'SNR=':
-                    return c == 'snr'
+                    return c.startswith('snr')
         if isinstance(cond, Cmp) and isinstance(cond.a, Sym):
             if any(at[0] == 'f' and at[1] == 'LEN' for at in cond.a.atoms()):
-                assign = {at: Sym.const(8) for at in cond.a.atoms() if at[0] == 'f'}
+                # the serial tag is 8 characters long, or 2 in the "-short" cases (a tag of fewer
+                # than 3 characters is not taken for a name; the device name is reported)
+                n_ = 2 if c.endswith('-short') else 8
+                assign = {at: Sym.const(n_) for at in cond.a.atoms() if at[0] == 'f'}
                 return fold_cond(Cmp(cond.op, cond.a.subs(assign), cond.b))
         if isinstance(cond, IsNone) and isinstance(cond.v, Opaque):
             return False
@@ -462,7 +498,28 @@ class NamedOracle(UnrollMixin, Hooks):
 
 
 def find_tag(v):
-    """For hwid[find(hwid, TAG) + len(TAG) : END] return (TAG, added, END description)."""
+    """For hwid[find(hwid, TAG) + len(TAG) : END] return (TAG, added, END description); the same
+    text written with str.partition - hwid.partition(TAG)[2], optionally cut at the next marker
+    with .partition(MARK)[0] - is recognised as well."""
+    def part(x, k):
+        if isinstance(x, Opaque) and x.label == 'item' and len(x.args) == 2 and \
+                x.args[1] == Sym.const(k) and isinstance(x.args[0], Opaque) and \
+                x.args[0].label == 'm:partition' and len(x.args[0].args) == 2 and \
+                isinstance(x.args[0].args[1], Str) and x.args[0].args[1].is_lit():
+            return x.args[0].args[0], x.args[0].args[1].text()
+        return None
+    after = part(v, 2)
+    if after is not None:
+        f = field_of(after[0])
+        if f and f[1] == 2:
+            return after[1], len(after[1]), 'end'
+    before = part(v, 0)
+    if before is not None:
+        inner = part(before[0], 2)
+        if inner is not None:
+            f = field_of(inner[0])
+            if f and f[1] == 2:
+                return inner[1], len(inner[1]), 'find(%r)' % before[1]
     if not (isinstance(v, Opaque) and v.label == 'slice'):
         return None
     src, lo, hi, step = v.args
@@ -484,7 +541,8 @@ def find_tag(v):
 
 
 def check_reported_names(ck, prog, fn, lister_quals, legacy):
-    cases = ['named', 'unnamed-board', 'ser', 'other'] + (['snr'] if legacy else [])
+    cases = ['named', 'unnamed-board', 'ser', 'ser-short', 'other'] + (
+        ['snr', 'snr-short'] if legacy else [])
     for case in cases:
         hk = NamedOracle(lister_quals, case)
         outs = run_fn(prog, fn, hk)
@@ -509,6 +567,12 @@ def check_reported_names(ck, prog, fn, lister_quals, legacy):
             ok = f is not None and f[1] == 1 and not f[2] and f[3] == OFFSET
             msg = 'reports %r for a named board; expected description[%d:] (the text after ' \
                   '"%s "), which is what the lookup compares' % (v, OFFSET, NAME_LIT)
+        elif case.endswith('-short'):
+            f = field_of(v)
+            ok = f is not None and f[1] == 0 and not f[2] and f[3] == 0
+            msg = 'reports %r for a board whose serial tag has fewer than 3 characters; such a ' \
+                  'tag is not a name and the device name is reported (every board must get ' \
+                  'exactly one entry, in order)' % (v,)
         elif case in ('ser', 'snr'):
             t = find_tag(v)
             tag = 'SER=' if case == 'ser' else 'SNR='
